@@ -43,6 +43,10 @@ def Began (s : State) (u p sig : Nat) : Prop :=
   (∃ st, Obs.sig p sig st "" ∈ s.log) ∨ s.blocked = true ∨ (sig ≠ 9 ∧ HookCalled s u "before_signal")
     ∨ ¬ Listed s u p ∨ s.k.GoneIn p
 
+/-- the pid counter and every pid of the process table are positive (the daemon is "pid 0" only in
+    the `ppid` field) -/
+def PosS (s : State) : Prop := 0 < s.k.nextPid ∧ s.k.PosK
+
 /-- what is known of a pending kill loop -/
 structure LoopOk (s : State) (u p sig i polls : Nat) : Prop where
   pos : 1 ≤ i
@@ -88,8 +92,6 @@ def LogJ (n0 : Nat) (X : Prop) (s : State) : Prop :=
 structure JInv (jm : JM) (s : State) : Prop where
   log : LogJ jm.n0 jm.X s
   nine : ∀ w ∈ s.ws, w.stopSignal = 9 → jm.X
-  pos : ∀ q ∈ s.k.procs.map (·.pid), 0 < q
-  npos : 0 < s.k.nextPid
 
 /-- what a call needs: `kill_process` is only ever called for a pid that has its `Process` object; in
     a justifying mode no call carries an explicit signal 9 (only `kill` requests do) -/
@@ -121,6 +123,8 @@ structure SI (J : JMode) (s : State) : Prop where
   rd : ∀ r ∈ s.ready, ∀ k, r.kont = some k → KOk s k
   uniq : ∀ p, pendCount s p ≤ 1
   reap : ∀ p st, Obs.reap p st ∈ s.log → s.k.GoneIn p
+  pos : PosS s
+  wpar : ∀ o ∈ s.objs, s.k.DC o.pid
   just : ∀ jm, J = some jm → JInv jm s
 
 /-- the tasks the interpreter may be given -/
@@ -165,7 +169,7 @@ theorem TaskOk.resume_free {J : JMode} {s : State} {k : Kont} (v : Val) (w : Wai
 /-! ### the extension order -/
 
 /-- `s'` extends `s` — all but the `stopping` flags (which the kill loop itself clears) -/
-structure Ext0 (s s' : State) : Prop where
+structure Ext00 (s s' : State) : Prop where
   log : ∀ o ∈ s.log, o ∈ s'.log
   blocked : s.blocked = true → s'.blocked = true
   obj : ∀ p, HasObj s p → HasObj s' p
@@ -175,13 +179,35 @@ structure Ext0 (s s' : State) : Prop where
   reap : ∀ p st, Obs.reap p st ∈ s'.log → Obs.reap p st ∈ s.log ∨ s'.k.GoneIn p
   ndc : ∀ p, s.k.NDC p → s'.k.NDC p
 
+/-- … and the process table only gains fresh pids, children of the daemon stay its children, new
+    `Process` objects are for children of the daemon -/
+structure Ext0 (s s' : State) : Prop extends Ext00 s s' where
+  kpids : ∀ q ∈ s'.k.procs.map (·.pid), q ∈ s.k.procs.map (·.pid) ∨ s.k.nextPid ≤ q
+  npid : s.k.nextPid ≤ s'.k.nextPid
+  dpar : PosS s → ∀ p, s.k.DC p → s'.k.DC p
+  objd : PosS s → ∀ p, HasObj s' p → HasObj s p ∨ s'.k.DC p
+
+theorem PosS.ext {s s' : State} (h : PosS s) (e : Ext0 s s') : PosS s' :=
+  ⟨Nat.lt_of_lt_of_le h.1 e.npid, fun q hq => by
+    rcases e.kpids q hq with hq | hq
+    · exact h.2 q hq
+    · exact Nat.lt_of_lt_of_le h.1 hq⟩
+
+/-- the common case: the kernel is untouched, no `Process` object appears -/
+theorem Ext0.ofK {s s' : State} (e : Ext00 s s') (hk : s'.k = s.k) (ho : ∀ p, HasObj s' p → HasObj s p) : Ext0 s s' where
+  toExt00 := e
+  kpids := fun q hq => Or.inl (by rw [← hk]; exact hq)
+  npid := by rw [hk]; exact Nat.le_refl _
+  dpar := fun _ p h => by rw [hk]; exact h
+  objd := fun _ p h => Or.inl (ho p h)
+
 /-- `s'` extends `s`: everything a continuation may know about `s` is still true in `s'` -/
 structure Ext (s s' : State) : Prop extends Ext0 s s' where
   stop : ∀ p, HasObj s p → (getO p s').1.stopping = (getO p s).1.stopping
 
 theorem Ext0.refl (s : State) : Ext0 s s :=
-  ⟨fun _ h => h, fun h => h, fun _ h => h, fun _ _ h => h, fun _ _ _ h => h, fun _ h => h, fun _ _ h => Or.inl h,
-   fun _ h => h⟩
+  Ext0.ofK ⟨fun _ h => h, fun h => h, fun _ h => h, fun _ _ h => h, fun _ _ _ h => h, fun _ h => h, fun _ _ h => Or.inl h,
+   fun _ h => h⟩ rfl (fun _ h => h)
 
 theorem Ext.refl (s : State) : Ext s s := ⟨Ext0.refl s, fun _ _ => rfl⟩
 
@@ -199,6 +225,18 @@ theorem Ext0.trans {a b c : State} (h1 : Ext0 a b) (h2 : Ext0 b c) : Ext0 a c wh
       · exact Or.inr (h2.gone p h)
     · exact Or.inr h
   ndc := fun p h => h2.ndc p (h1.ndc p h)
+  kpids := fun q hq => by
+    rcases h2.kpids q hq with h | h
+    · exact h1.kpids q h
+    · exact Or.inr (Nat.le_trans h1.npid h)
+  npid := Nat.le_trans h1.npid h2.npid
+  dpar := fun hp p h => h2.dpar (hp.ext h1) p (h1.dpar hp p h)
+  objd := fun hp p h => by
+    rcases h2.objd (hp.ext h1) p h with h | h
+    · rcases h1.objd hp p h with h | h
+      · exact Or.inl h
+      · exact Or.inr (h2.dpar (hp.ext h1) p h)
+    · exact Or.inr h
 
 theorem Ext.trans {a b c : State} (h1 : Ext a b) (h2 : Ext b c) : Ext a c where
   toExt0 := h1.toExt0.trans h2.toExt0
@@ -253,11 +291,9 @@ theorem CallOk.mono {J : JMode} {s s' : State} (e : ∀ p, HasObj s p → HasObj
 structure NoNine (s s' : State) : Prop where
   log : ∃ d, s'.log = s.log ++ d ∧ ∀ o ∈ d, o.isNine = false
   nine : ∀ w' ∈ s'.ws, w'.stopSignal = 9 → ∃ w ∈ s.ws, w.stopSignal = 9
-  kpids : ∀ q ∈ s'.k.procs.map (·.pid), q ∈ s.k.procs.map (·.pid) ∨ s.k.nextPid ≤ q
-  npid : s.k.nextPid ≤ s'.k.nextPid
 
 theorem NoNine.refl (s : State) : NoNine s s :=
-  ⟨⟨[], by simp, fun _ h => by cases h⟩, fun w hw h9 => ⟨w, hw, h9⟩, fun q hq => Or.inl hq, Nat.le_refl _⟩
+  ⟨⟨[], by simp, fun _ h => by cases h⟩, fun w hw h9 => ⟨w, hw, h9⟩⟩
 
 theorem NoNine.trans {a b c : State} (h1 : NoNine a b) (h2 : NoNine b c) : NoNine a c where
   log := by
@@ -271,11 +307,6 @@ theorem NoNine.trans {a b c : State} (h1 : NoNine a b) (h2 : NoNine b c) : NoNin
   nine := fun w hw h9 => by
     obtain ⟨w1, hw1, h91⟩ := h2.nine w hw h9
     exact h1.nine w1 hw1 h91
-  kpids := fun q hq => by
-    rcases h2.kpids q hq with h | h
-    · exact h1.kpids q h
-    · exact Or.inr (Nat.le_trans h1.npid h)
-  npid := Nat.le_trans h1.npid h2.npid
 
 theorem append_split_nine {l d pre post : List Obs} {x : Obs} (h : l ++ d = pre ++ x :: post)
     (hx : x.isNine = true) (hd : ∀ o ∈ d, o.isNine = false) : ∃ post', l = pre ++ x :: post' := by
@@ -315,11 +346,6 @@ theorem JInv.mono {jm : JM} {s s' : State} (e : Ext0 s s') (n : NoNine s s') (h 
   nine := fun w hw h9 => by
     obtain ⟨w0, hw0, h90⟩ := n.nine w hw h9
     exact h.nine w0 hw0 h90
-  pos := fun q hq => by
-    rcases n.kpids q hq with hq | hq
-    · exact h.pos q hq
-    · exact Nat.lt_of_lt_of_le h.npos hq
-  npos := Nat.lt_of_lt_of_le h.npos n.npid
 
 /-- a state change that leaves the coroutine heap alone and only extends the rest (it may append
     anything but a `reap`) -/
@@ -349,6 +375,17 @@ theorem SQuietW.pendCount {s s' : State} (h : SQuietW s s') (p : Nat) : pendCoun
 theorem SQuiet.pendCount {s s' : State} (h : SQuiet s s') (p : Nat) : pendCount s' p = pendCount s p :=
   h.toSQuietW.pendCount p
 
+/-- workers stay children of the daemon along an extension -/
+theorem SI.wpar_ext {s s' : State} (hp : PosS s) (hw : ∀ o ∈ s.objs, s.k.DC o.pid) (e : Ext0 s s') :
+    ∀ o ∈ s'.objs, s'.k.DC o.pid := by
+  intro o ho
+  rcases e.objd hp o.pid (List.mem_map.mpr ⟨o, ho, rfl⟩) with h | h
+  · obtain ⟨o0, ho0, he⟩ := List.mem_map.mp h
+    have := hw o0 ho0
+    rw [he] at this
+    exact e.dpar hp _ this
+  · exact h
+
 /-- a quiet change keeps the invariant (the accounting `PidInv` is shown separately, by the generic
     preservation theorems) -/
 theorem SI.of_quietW {s s' : State} (h : SI none s) (hp : PidInv s') (q : SQuietW s s') : SI none s' where
@@ -364,6 +401,8 @@ theorem SI.of_quietW {s s' : State} (h : SI none s) (hp : PidInv s') (q : SQuiet
     rcases q.ext.reap p st hm with hm | hg
     · exact q.ext.gone p (h.reap p st hm)
     · exact hg
+  pos := h.pos.ext q.ext.toExt0
+  wpar := SI.wpar_ext h.pos h.wpar q.ext.toExt0
   just := fun jm hj => by cases hj
 
 theorem SI.of_quiet {J : JMode} {s s' : State} (h : SI J s) (hp : PidInv s') (q : SQuiet s s') : SI J s' where
@@ -379,9 +418,11 @@ theorem SI.of_quiet {J : JMode} {s s' : State} (h : SI J s) (hp : PidInv s') (q 
     rcases q.ext.reap p st hm with hm | hg
     · exact q.ext.gone p (h.reap p st hm)
     · exact hg
+  pos := h.pos.ext q.ext.toExt0
+  wpar := SI.wpar_ext h.pos h.wpar q.ext.toExt0
   just := fun jm hj => (h.just jm hj).mono q.ext.toExt0 q.nn
 
 theorem SI.toNone {J : JMode} {s : State} (h : SI J s) : SI none s :=
-  ⟨h.pid, h.fr, h.rd, h.uniq, h.reap, fun jm hj => by cases hj⟩
+  ⟨h.pid, h.fr, h.rd, h.uniq, h.reap, h.pos, h.wpar, fun jm hj => by cases hj⟩
 
 end Circus.Core
